@@ -7,6 +7,22 @@ mod ndarray_draws;
 mod zarr_events;
 #[allow(dead_code)]
 mod ndarray_divergence;
+#[allow(dead_code)]
+mod arrow_readback;
+
+fn run_unit(name: &str, f: fn()) -> bool {
+    match std::panic::catch_unwind(f) {
+        Ok(()) => {
+            println!("REPLAY {name} PASS");
+            true
+        }
+        Err(p) => {
+            let msg = p.downcast_ref::<String>().cloned().or_else(|| p.downcast_ref::<&str>().map(|s| s.to_string())).unwrap_or_default();
+            println!("REPLAY {name} FAIL {msg}");
+            false
+        }
+    }
+}
 
 fn run(name: &str, f: fn() -> anyhow::Result<()>) -> bool {
     match std::panic::catch_unwind(f) {
@@ -37,9 +53,11 @@ fn main() {
             run("ndarray_divergence", ndarray_divergence::ndarray_trace_holds_the_divergence_messages)
                 & run("ndarray_strings", ndarray_divergence::ndarray_trace_holds_string_and_time_draw_variables)
         }
+        "arrow_optional_group" => run_unit("arrow_optional_group", arrow_readback::arrow_flattened_option_group),
+        "arrow_readback" => run_unit("arrow_readback", arrow_readback::arrow_values_read_back),
         "zarr_events" => run("zarr_events", zarr_events::zarr_reports_every_transformation_update),
         _ => {
-            eprintln!("usage: nuts-replay-store ndarray_draws | ndarray_divergence | zarr_events");
+            eprintln!("usage: nuts-replay-store ndarray_draws | ndarray_divergence | zarr_events | arrow_optional_group | arrow_readback");
             std::process::exit(2);
         }
     };
